@@ -25,14 +25,18 @@ import (
 // sequence the EVM would emit) is the tracer's input.
 
 type evAspect struct {
-	JP     int64           `json:"jp"` // 2 pre-tx, 4 pre-call, 8 post-call, 16 post-tx
-	ID     int             `json:"id"`
-	Addr   *common.Address `json:"addr,omitempty"` // hybrid streams: the real aspect address
-	GasIn  uint64          `json:"gasIn"`
-	GasOut uint64          `json:"gasOut"`
-	Ret    []byte          `json:"ret,omitempty"`
-	Err    string          `json:"err,omitempty"`
-	Calls  []evFrame       `json:"calls,omitempty"`
+	JP   int64           `json:"jp"` // 2 pre-tx, 4 pre-call, 8 post-call, 16 post-tx
+	ID   int             `json:"id"`
+	Addr *common.Address `json:"addr,omitempty"` // hybrid streams: the real aspect address
+	// hybrid streams: the tracers keep the input slice they are handed without copying
+	// (for real executions that is live caller memory); the statement does not cover
+	// the input of an Aspect frame, so it is compared in synthetic streams only
+	SkipInput bool      `json:"skipInput,omitempty"`
+	GasIn     uint64    `json:"gasIn"`
+	GasOut    uint64    `json:"gasOut"`
+	Ret       []byte    `json:"ret,omitempty"`
+	Err       string    `json:"err,omitempty"`
+	Calls     []evFrame `json:"calls,omitempty"`
 }
 
 type evFrame struct {
@@ -247,6 +251,9 @@ func c19EVM() *avm.EVM {
 type outAspect struct {
 	Type    string         `json:"type"`
 	Aspect  common.Address `json:"aspect"`
+	From    common.Address `json:"from"`
+	To      common.Address `json:"to"`
+	Input   hexutil.Bytes  `json:"input"`
 	Gas     hexutil.Uint64 `json:"gas"`
 	GasUsed hexutil.Uint64 `json:"gasUsed"`
 	Output  hexutil.Bytes  `json:"output"`
@@ -273,6 +280,7 @@ type outFlat struct {
 		To       *common.Address `json:"to"`
 		Aspect   *common.Address `json:"aspect"`
 		Gas      *hexutil.Uint64 `json:"gas"`
+		Input    *hexutil.Bytes  `json:"input"`
 	} `json:"action"`
 	Error  string `json:"error"`
 	Result *struct {
@@ -306,7 +314,7 @@ func opTypeName(b byte) string {
 	return "?"
 }
 
-func cmpAspects(path string, want []evAspect, got []outAspect) string {
+func cmpAspects(path string, encl *evFrame, want []evAspect, got []outAspect) string {
 	if len(want) != len(got) {
 		return fmt.Sprintf("%s: %d aspect executions emitted, %d happened", path, len(got), len(want))
 	}
@@ -322,6 +330,14 @@ func cmpAspects(path string, want []evAspect, got []outAspect) string {
 		}
 		if uint64(g.Gas) != w.GasIn || uint64(g.GasUsed) != w.GasIn-w.GasOut {
 			return fmt.Sprintf("%s: gas %d used %d, the execution got %d and used %d", p, g.Gas, g.GasUsed, w.GasIn, w.GasIn-w.GasOut)
+		}
+		// the execution belongs to the call it was fired for: its parties and calldata
+		wantIn := encl.Input
+		if w.SkipInput {
+			wantIn = g.Input
+		}
+		if g.From != cmpAddrs[encl.From] || g.To != cmpAddrs[encl.To] || string(g.Input) != string(wantIn) {
+			return fmt.Sprintf("%s: from %x to %x input %x, the join point was fired for the call from %x to %x and got input %x", p, g.From, g.To, []byte(g.Input), cmpAddrs[encl.From], cmpAddrs[encl.To], wantIn)
 		}
 		if g.Error != w.Err {
 			return fmt.Sprintf("%s: error %q, the execution ended with %q", p, g.Error, w.Err)
@@ -365,7 +381,7 @@ func cmpFrame(p string, w *evFrame, g *outFrame, top bool) string {
 		return fmt.Sprintf("%s: output %x, expected %x", p, []byte(g.Output), w.Output)
 	}
 	all := append(append([]evAspect{}, w.Pre...), w.Post...)
-	if d := cmpAspects(p, all, g.JoinPoints); d != "" {
+	if d := cmpAspects(p, w, all, g.JoinPoints); d != "" {
 		return d
 	}
 	return cmpFrames(p, w.Calls, g.Calls)
@@ -374,15 +390,19 @@ func cmpFrame(p string, w *evFrame, g *outFrame, top bool) string {
 var c19Parity = map[string]string{"execution reverted": "Reverted", "out of gas": "Out of gas", "invalid opcode: INVALID": "Bad instruction", "boom": "boom", "": ""}
 
 type flatWant struct {
-	addr     []int
-	sub      int
-	gas      uint64
-	gasUsed  uint64
-	output   []byte
-	isAspect bool
-	err      string
-	callType string
-	typ      string
+	addr      []int
+	sub       int
+	gas       uint64
+	gasUsed   uint64
+	output    []byte
+	from, to  common.Address
+	input     []byte
+	skipInput bool
+	aspect    common.Address
+	isAspect  bool
+	err       string
+	callType  string
+	typ       string
 }
 
 func flatExpect(f *evFrame, addr []int, includePre bool, out *[]flatWant) {
@@ -413,7 +433,15 @@ func flatExpect(f *evFrame, addr []int, includePre bool, out *[]flatWant) {
 			}
 		}
 		ad := child()
-		*out = append(*out, flatWant{addr: ad, sub: len(ac), gas: a.GasIn, gasUsed: a.GasIn - a.GasOut, output: a.Ret, isAspect: true, err: a.Err, callType: strings.ToLower(jpNames[a.JP]), typ: "call"})
+		aid := addrN(0xa5, a.ID)
+		if a.Addr != nil {
+			aid = *a.Addr
+		}
+		ain := f.Input
+		if a.SkipInput {
+			ain = nil
+		}
+		*out = append(*out, flatWant{addr: ad, sub: len(ac), gas: a.GasIn, gasUsed: a.GasIn - a.GasOut, output: a.Ret, isAspect: true, from: cmpAddrs[f.From], to: cmpAddrs[f.To], input: ain, skipInput: a.SkipInput, aspect: aid, err: a.Err, callType: strings.ToLower(jpNames[a.JP]), typ: "call"})
 		for i, c := range ac {
 			flatExpect(c, append(append([]int{}, ad...), i), includePre, out)
 		}
@@ -561,6 +589,15 @@ func checkC19(tx evTx, st *Stats) (viol *Violation) {
 			}
 			if w.isAspect != (g.Action.Aspect != nil) {
 				return violf("flat/aspect", "%s: aspect marker %v, expected aspect frame: %v", p, g.Action.Aspect != nil, w.isAspect)
+			}
+			if w.isAspect {
+				var gin []byte
+				if g.Action.Input != nil {
+					gin = *g.Action.Input
+				}
+				if *g.Action.Aspect != w.aspect || g.Action.From == nil || *g.Action.From != w.from || g.Action.To == nil || *g.Action.To != w.to || (!w.skipInput && string(gin) != string(w.input)) {
+					return violf("flat/aspect-identity", "%s: aspect %x from %v to %v input %x, expected aspect %x fired for the call from %x to %x with input %x", p, *g.Action.Aspect, g.Action.From, g.Action.To, gin, w.aspect, w.from, w.to, w.input)
+				}
 			}
 			wantErr := w.err
 			if tx.Cfg["convertParityErrors"] {
